@@ -13,12 +13,19 @@ open GcScript Gc
 
 /-! ### every script state is reachable -/
 
-theorem reach_leakStep (p : PSt) (h : Reachable p.gs) : Reachable (leakStep p).1.gs := by
+theorem reach_leakStep0 (p : PSt) (h : Reachable p.gs) : Reachable (leakStep0 p).1.gs := by
   have h1 : Reachable (runG p (leakOps p)).gs := reach_runG p _ h
   exact reach_applyE (o := .collect)
-    (x := (zeroAll (leakStep p).2 (dropAll (runG p (leakOps p)).kinds (leakStep p).2
+    (x := (zeroAll (leakStep0 p).2 (dropAll (runG p (leakOps p)).kinds (leakStep0 p).2
       ((runG p (leakOps p)).gs, (runG p (leakOps p)).err)).1, _))
     (reach_zeroAll _ (reach_dropAll _ _ _ h1)) trivial
+
+/-- `leakcheck` keeps the state reachable, whether Rust values own handles (`leakStepH`: drops and two collections
+    through `runG`) or not (the plain one) -/
+theorem reach_leakStep (p : PSt) (h : Reachable p.gs) : Reachable (leakStep p).1.gs := by
+  by_cases hh : p.held = []
+  · rw [leakStep_of_held_nil p hh]; exact reach_leakStep0 p h
+  · rw [leakStep_of_held_ne p hh]; exact reach_leakStepH p h
 
 /-- the compiled form of a line, whatever it is, keeps the collector state reachable (one case per
     constructor of `R`) -/
@@ -28,10 +35,11 @@ theorem reach_stepR (p : PSt) (r : R) (h : Reachable p.gs) : Reachable (stepR p 
   split
   · -- `.ops`
     exact reach_ite (reach_runG _ _ h) (reach_runG _ _ h)
-  · -- `.sw`: `pre`, then either the first selection, a collection and `atClose`, or nothing; then `post`
+  · -- `.sw`: `pre`, then either the first selection, `mid` and `atClose`, or `mid` alone; then `post`
     refine reach_ite ?_ ?_ <;> refine reach_runG _ _ ?_ <;> refine reach_ite ?_ ?_
     all_goals first
       | exact reach_runG _ _ (reach_rewireAll _ (reach_runG _ _ h))
+      | exact reach_runG _ _ (reach_runG _ _ h)
       | exact reach_runG _ _ h
   · -- `.hints`
     exact h
@@ -109,16 +117,15 @@ theorem struct_held_not_freed (lines : List String) (a : Nat)
 
 /-! ### the leak theorem -/
 
-/-- `leakcheck` from a reachable state, when no listener stays rooted: every allocated object is
-    freed -/
-theorem leakStep_frees_all (p : PSt) (h : Reachable p.gs) (hk : (leakStep p).2 = []) :
-    ∀ i, i < (leakStep p).1.gs.g.nextId → ((leakStep p).1.gs.g.nodes.get i).freed = true := by
+/-- the plain `leakcheck` from a reachable state, when no listener stays rooted: every allocated object is freed -/
+theorem leakStep0_frees_all (p : PSt) (h : Reachable p.gs) (hk : (leakStep0 p).2 = []) :
+    ∀ i, i < (leakStep0 p).1.gs.g.nextId → ((leakStep0 p).1.gs.g.nodes.get i).freed = true := by
   have h1 : Reachable (runG p (leakOps p)).gs := reach_runG p _ h
   -- the state just before the final collection
-  have e : (leakStep p).1.gs =
-      (applyE (zeroAll (leakStep p).2 (dropAll (runG p (leakOps p)).kinds (leakStep p).2
+  have e : (leakStep0 p).1.gs =
+      (applyE (zeroAll (leakStep0 p).2 (dropAll (runG p (leakOps p)).kinds (leakStep0 p).2
         ((runG p (leakOps p)).gs, (runG p (leakOps p)).err)).1,
-        (dropAll (runG p (leakOps p)).kinds (leakStep p).2
+        (dropAll (runG p (leakOps p)).kinds (leakStep0 p).2
         ((runG p (leakOps p)).gs, (runG p (leakOps p)).err)).2) .collect).1 := rfl
   rw [hk] at e
   rw [e, applyE_collect]
@@ -131,12 +138,23 @@ theorem leakStep_frees_all (p : PSt) (h : Reachable p.gs) (hk : (leakStep p).2 =
   intro i hi
   exact hd.2 i (by rw [← collectCycles_nextId hz]; exact hi)
 
-/-- **no leak**: if the `leakcheck` of an API script leaves no listener rooted (the harness could
-    unlisten every listener), it frees every object the script ever allocated -/
-theorem leakcheck_frees_all (lines : List String) (hk : (leakStep (run lines)).2 = []) :
+/-- `leakcheck` from a reachable state in which no Rust value owns a handle the collector cannot see (`held = []`: no
+    cell value, no unforced thunk keeps a cell), when no listener stays rooted: every allocated object is freed.
+    With such handles the conclusion is false: that is the known finding D6, machine-checked below (`d6_witness`). -/
+theorem leakStep_frees_all (p : PSt) (h : Reachable p.gs) (hh : p.held = [])
+    (hk : (leakStep p).2 = []) :
+    ∀ i, i < (leakStep p).1.gs.g.nextId → ((leakStep p).1.gs.g.nodes.get i).freed = true := by
+  rw [leakStep_of_held_nil p hh] at hk ⊢
+  exact leakStep0_frees_all p h hk
+
+/-- **no leak**: if, after an API script, no Rust value owns a handle the collector cannot see (`held = []`) and the
+    `leakcheck` leaves no listener rooted (the harness could unlisten every listener), it frees every object the
+    script ever allocated.  (Without `held = []` this is false: `d6_witness`, the known finding D6.) -/
+theorem leakcheck_frees_all (lines : List String) (hh : (run lines).held = [])
+    (hk : (leakStep (run lines)).2 = []) :
     let p' := (leakStep (run lines)).1
     ∀ i, i < p'.gs.g.nextId → (p'.gs.g.nodes.get i).freed = true :=
-  leakStep_frees_all (run lines) (run_reachable lines) hk
+  leakStep_frees_all (run lines) (run_reachable lines) hh hk
 
 theorem leakCount_zero_of_all_freed (p : PSt)
     (h : ∀ i, i < p.gs.g.nextId → (p.gs.g.nodes.get i).freed = true) : leakCount p = 0 := by
@@ -145,10 +163,11 @@ theorem leakCount_zero_of_all_freed (p : PSt)
   intro i hi
   simp [State.node, h i hi]
 
-/-- … so the harness's `leak=` answer is `0` -/
-theorem leakcheck_count_zero (lines : List String) (hk : (leakStep (run lines)).2 = []) :
+/-- … so the harness's `leak=` answer is `0` (same hypotheses; false without `held = []`: `d6_witness`) -/
+theorem leakcheck_count_zero (lines : List String) (hh : (run lines).held = [])
+    (hk : (leakStep (run lines)).2 = []) :
     leakCount (leakStep (run lines)).1 = 0 :=
-  leakCount_zero_of_all_freed _ (leakcheck_frees_all lines hk)
+  leakCount_zero_of_all_freed _ (leakcheck_frees_all lines hh hk)
 
 /-! ### non-vacuity -/
 
@@ -201,7 +220,7 @@ example :
   have hr : Reachable p.gs := reach_runG {} _ .init
   have hk : (leakStep p).2 = [] := by decide +kernel
   exact ⟨hr, hk, by decide +kernel,
-    leakCount_zero_of_all_freed _ (leakStep_frees_all p hr hk)⟩
+    leakCount_zero_of_all_freed _ (leakStep_frees_all p hr (by decide +kernel) hk)⟩
 
 /-- what `ssink s` then `listen l s` compile to: sink `0`, listen node `1`, listener `2` (held by
     the script and by the context's keep-alive list) -/
@@ -224,7 +243,7 @@ example :
   intro p
   have hr : Reachable p.gs := reach_runG {} _ .init
   have hk : (leakStep p).2 = [] := by decide +kernel
-  exact ⟨by decide +kernel, hk, by decide +kernel, leakStep_frees_all p hr hk⟩
+  exact ⟨by decide +kernel, hk, by decide +kernel, leakStep_frees_all p hr (by decide +kernel) hk⟩
 
 /-- … and the hypothesis `keep = []` of the leak theorem is needed: once the script has dropped
     its handle on the strong listener (`drop l`), the context keeps it for good, `leakcheck`
@@ -268,6 +287,7 @@ def exSwitchR : R :=
      .new "switch_s inner node", .sdeps 9 [], .deref 7 6,
      .new "switch_s outer node", .edge 10 6, .edge 10 6, .edge 10 9, .sdeps 10 [6],
      .edge 9 10, .dec 10, .dec 6]
+    [.eot]
     [.dec 7, .dec 5]
     [.dec 0, .dec 1, .dec 3]
     [("#switch:x", .temps [7, 5]), ("x", .stream 9), ("c", .csink 3 2), ("b", .ssink 1), ("a", .ssink 0)]
@@ -333,8 +353,102 @@ example :
   exact ⟨by decide +kernel, hr _,
     ⟨by decide +kernel, by decide +kernel, by decide +kernel, by decide +kernel⟩,
     ⟨by decide +kernel, hr _, by decide +kernel, by decide +kernel, by decide +kernel, by decide +kernel⟩,
-    ⟨hk, by decide +kernel, leakStep_frees_all _ (hr _) hk⟩,
+    ⟨hk, by decide +kernel, leakStep_frees_all _ (hr _) (by decide +kernel) hk⟩,
     by decide +kernel⟩
+
+/-! ### the known finding D6, machine-checked: a `switch_c` in a `CellLoop` is never freed
+
+  The hypothesis `held = []` of the no-leak theorems is not a convenience: the value of a cell is a Rust value, and when
+  that value is itself a cell (`switch_c`: a cell of cells) the handle it owns is invisible to the collector.  If the
+  candidates of a `switch_c` depend on its own output through a `CellLoop`, the cell of cells is reachable from the
+  cell it holds: a cycle the collector cannot see, kept alive by a handle nothing will ever drop.  Same presentation as
+  the switch example above: ten of the twelve lines go through the real `compile` on their words, the two that parse a
+  number (`switchc … @0`, `cellvals 0:0`) are given compiled, and `#guard`s compare with `run` on the strings. -/
+
+/-- a selector cell (value 0, number 0 in the value oracle) and a sink; in one transaction: a cell loop `k`, candidate
+    `c0 = hold (snapshot e k)` and candidate `c1 = k.map`, both depending on the loop, `w = switch_c (sel ↦ c0 | c1)`,
+    and the loop is closed on `w`; the selector is worth 0 when the transaction ends (the first selection: `c0`);
+    then `leakcheck` -/
+def exD6Lines : List String :=
+  ["csink sel 0", "ssink e", "begin", "cloop k", "snapshot a e k 2", "hold c0 a 1", "mapc c1 k 2",
+   "switchc w sel c0 c1 @0", "cloopclose k w", "cellvals 0:0", "end", "leakcheck"]
+
+/-- what `switchc w sel c0 c1 @0` compiles to after the first seven lines (selector: stream `0`, hold node `1`; sink
+    `2`; loop: stream `3`, loop object `4`, hold node `5`; snapshot `6`, `c0` = hold node `7`; map `8`, `c1` = hold node
+    `9`): `sel.map` node `10` (declares the candidates' cells), cell `11`, wrapper `12`, cell of cells `13`, outer node
+    `14` (keeps `13`), placeholder `15`, inner node `16`; when the transaction ends: the result `w` = hold node `17`,
+    whose initial thunk owns a handle on the cell of cells `13` (`.hold 17 13`) -/
+def exD6R : R :=
+  .sw
+    [.inc 1, .inc 7, .inc 9, .deref 1 0,
+     .new "Stream::map", .edge 10 0, .edge 10 0, .edge 10 7, .edge 10 9, .sdeps 10 [0],
+     .new "Cell::hold", .edge 11 10, .edge 11 10, .edge 11 10, .sdeps 11 [10], .dec 10, .dec 0, .eot,
+     .deref 11 10, .new "Stream::map", .edge 12 10, .edge 12 10, .sdeps 12 [10],
+     .new "Cell::hold", .edge 13 12, .edge 13 12, .edge 13 12, .sdeps 13 [12], .dec 12, .dec 10, .eot,
+     .deref 13 12, .new "switch_c outer node", .edge 14 12, .sdeps 14 [12], .dec 12,
+     .new "Stream::new", .sdeps 15 [], .dec 15,
+     .new "switch_c inner node", .edge 16 14, .sdeps 16 [14],
+     .edge 14 13, .edge 14 14, .edge 14 16, .dec 14]
+    [.eot, .new "Cell::hold", .edge 17 16, .edge 17 16, .edge 17 16, .sdeps 17 [16],
+     .inc 13, .hold 17 13, .dec 16, .eot]
+    [.dec 13, .dec 11]
+    [.dec 7, .dec 9, .dec 1]
+    [("#switch:w", .temps [13, 11]), ("w", .cell 17 16), ("c1", .cell 9 8), ("c0", .cell 7 6), ("a", .stream 6),
+     ("k", .cloop 4 3 5), ("e", .ssink 2), ("sel", .csink 1 0)]
+    { n1 := 16, chain := [14, 12, 10], cands := [7, 9], sel := 0, deps := [6, 8], valOwners := [13, 11],
+      resHold := some 17 }
+
+def exD6Items : List (List String ⊕ R) :=
+  [.inl ["csink", "sel", "0"], .inl ["ssink", "e"], .inl ["begin"], .inl ["cloop", "k"],
+   .inl ["snapshot", "a", "e", "k", "2"], .inl ["hold", "c0", "a", "1"], .inl ["mapc", "c1", "k", "2"],
+   .inr exD6R, .inl ["cloopclose", "k", "w"], .inr (.hints [(0, 0)]), .inl ["end"], .inl ["leakcheck"]]
+
+-- evaluation checks (run at build time, not theorems): tokenisation, the compiled form of the two lines that parse
+-- numbers, and the facts of `d6_witness` as they come out of `run` / `step` on the strings
+#guard exD6Lines.map tokens ==
+  [["csink", "sel", "0"], ["ssink", "e"], ["begin"], ["cloop", "k"], ["snapshot", "a", "e", "k", "2"],
+   ["hold", "c0", "a", "1"], ["mapc", "c1", "k", "2"], ["switchc", "w", "sel", "c0", "c1", "@0"],
+   ["cloopclose", "k", "w"], ["cellvals", "0:0"], ["end"], ["leakcheck"]]
+#guard compile (runItems {} (exD6Items.take 7)).env (runItems {} (exD6Items.take 7)).gs.g.nextId
+  (tokens "switchc w sel c0 c1 @0") = exD6R
+#guard compile [] 0 (tokens "cellvals 0:0") = .hints [(0, 0)]
+#guard (run exD6Lines).err = false
+#guard leakCount (run exD6Lines) = 13
+#guard (run exD6Lines.dropLast).err = false
+#guard (run exD6Lines.dropLast).held = [(17, 13), (13, 7)]
+#guard (leakStep (run exD6Lines.dropLast)).2 = [7]
+#guard (run exD6Lines).held = [(13, 7)]
+#guard (step (run exD6Lines.dropLast) "leakcheck").2 == "leak=13"
+#guard (stepR (runItems {} exD6Items.dropLast) .leak).2 == "leak=13"
+
+
+/-- **known finding D6** (a `switch_c` whose candidates depend on its own output through a `CellLoop` is never freed).
+    The script `exD6Lines` runs without a structural error (no inapplicable operation, handle balance after every
+    line), in reachable states.  Before `leakcheck`, two handles are owned by Rust values: the initial thunk of the
+    result `17` owns the cell of cells `13`, and the value of the cell of cells `13` is the selected candidate cell
+    `7`.  No listener is rooted — the hypothesis `(leakStep p).2 = []` of `leakStep_frees_all` holds in the sense it
+    has when `held = []` — but `held ≠ []`, and the conclusion of `leakStep_frees_all` / `leakcheck_frees_all` /
+    `leakcheck_count_zero` fails: `leakcheck` answers `leak=13`.  After it the script's environment is empty, the
+    only handle left on any object is the one the value of `13` has on `7` (`balanced`: the handle counts are exactly
+    what the environment — nothing — and `held` stand for), so no object is reachable from a handle of the script;
+    that one handle keeps `7`, from which the loop leads back to `13`: 13 of the 18 objects — all of them nodes — are
+    neither freed nor dead, the list `leakStep` says it kept is `[7]`, not `[]`, and the line answers `leak=13`. -/
+theorem d6_witness :
+    Reachable (runItems {} exD6Items).gs ∧ Reachable (runItems {} exD6Items.dropLast).gs ∧
+    (runItems {} exD6Items).err = false ∧ leakCount (runItems {} exD6Items) = 13 ∧
+    (let p := runItems {} exD6Items.dropLast
+     p.err = false ∧ p.held = [(17, 13), (13, 7)] ∧
+     (p.env.filterMap fun kv => match kv.2 with | .rooted li => some li | _ => none) = [] ∧
+     (leakStep p).2 = [7] ∧ (leakStep p).2 ≠ [] ∧
+     (leakStep p).1.err = false ∧ (leakStep p).1.env = [] ∧ (leakStep p).1.held = [(13, 7)] ∧
+     balanced (leakStep p).1 = true ∧
+     (leakStep p).1.gs.g.nextId = 18 ∧
+     (∀ a, a < (leakStep p).1.gs.g.nextId → (leakStep p).1.gs.handles.get a = if a = 7 then 1 else 0) ∧
+     (List.range 18).filter (fun i => !((leakStep p).1.gs.g.nodes.get i).freed) =
+       [0, 2, 3, 5, 6, 7, 8, 9, 10, 12, 13, 14, 16] ∧
+     ¬ (∀ i, i < (leakStep p).1.gs.g.nextId → ((leakStep p).1.gs.g.nodes.get i).freed = true) ∧
+     leakCount (leakStep p).1 = 13 ∧ (stepR p .leak).2 = "leak=13") :=
+  ⟨reach_runItems _ {} .init, reach_runItems _ {} .init, by decide +kernel⟩
 
 end Struct
 end SodiumVerif
